@@ -465,7 +465,7 @@ func init() {
 		TrustedBase: baseTrusted,
 		Rules:       []RuleRun{{"R8", R8("json", "cborl", "ubjson")}, {"R3", R3("json", "cborl", "ubjson")}, {"R22", R22("json", "cborl", "ubjson")}, {"R24", R24("parsers", "json", "cborl", "ubjson")}},
 		LevelText:   "Structural necessary conditions decided on every SSA path of the three Next implementations and nine one-shot entry points (must-pass-through and guard-fact rules obtained by cross-checking the three siblings). Reader behaviour is a schedule space no fixture enumerates; the path rules cover every read size and every position of io.EOF at once.",
-		Technique:   "must-pass-through and guard-fact path analysis on SSA (finalize before EOF, n==0 before reader error, no read into empty slice, window advance), sibling cross-check of the three decoders",
+		Technique:   "must-pass-through and guard-fact path analysis on SSA (finalize before EOF, n==0 before reader error, no read into empty slice, window advance), sibling cross-check of the three decoders; the chunk-resumption rules (collect-guard, accounting, effect-before-collect, resume matching, index translation) as necessary conditions for arbitrary read sizes",
 		DesignRef:   "DESIGN.md section 2 R8, section 3 C18",
 	})
 }
